@@ -662,6 +662,9 @@ def check(prop: str, tier: str, seed: int) -> int:
         scen += fam_random(300 if quick else 6000, rnd)
         scen += fam_tlcsim(run, "deep1", 10 if quick else 400, seed)
         scen += fam_cancel(tier, rnd, 200 if quick else None)
+        # every exception code as the first answer (all command kinds): whatever the code means to the inverter, the budget
+        # of transmissions and the deadline hold
+        scen += [sc for sc in fam_exc(tier) if sc["rfaults"][0][0]["k"] == "exc" or not quick]
         if not quick:
             scen += fam_script([2], [0], conn_variants=False)
             scen += fam_script([1], [0], conn_variants=False, scale=2)
